@@ -28,8 +28,9 @@ def parseData (prog : Bytes) (l pc op len hdr : Nat) : Except Err Inst :=
   else if e > l then .error .shortProgram
   else .ok ⟨op, len, subBytes prog (pc + hdr) e⟩
 
-def parseOp (prog : Bytes) (pc : Nat) : Except Err Inst :=
-  let l := prog.length % two32            -- uint32(len(prog))
+/-- `ParseOp`; `plen` is Go's `len(prog)` (a property of the slice header), `prog` the bytes -/
+def parseOpL (plen : Nat) (prog : Bytes) (pc : Nat) : Except Err Inst :=
+  let l := plen % two32            -- uint32(len(prog))
   if l > maxInt32 then .error .longProgram
   else if pc ≥ l then .error .shortProgram
   else
@@ -42,18 +43,49 @@ def parseOp (prog : Bytes) (pc : Nat) : Except Err Inst :=
         let n := (prog.getD (pc + 1) 0).toNat
         parseData prog l pc op (2 + n) 2
     else if op = 0x4d then
-      if prog.length < 3 ∨ pc > l - 3 then .error .shortProgram
+      if plen < 3 ∨ pc > l - 3 then .error .shortProgram
       else
         let n := leToNat (subBytes prog (pc + 1) (pc + 3))
         parseData prog l pc op (3 + n) 3
     else if op = 0x4e then
-      if prog.length < 5 ∨ pc > l - 5 then .error .shortProgram
+      if plen < 5 ∨ pc > l - 5 then .error .shortProgram
       else
         let n := leToNat (subBytes prog (pc + 1) (pc + 5))
         if 5 + n ≥ two32 then .error .overflow
         else parseData prog l pc op (5 + n) 5
     else if op = 0x63 ∨ op = 0x64 then parseData prog l pc op 5 1
     else .ok ⟨op, 1, []⟩
+
+def parseOp (prog : Bytes) (pc : Nat) : Except Err Inst := parseOpL prog.length prog pc
+
+/-- the first `applyCost` of every handler: a lower bound for what a successful execution
+    of the opcode takes from the potential (CHECKPREDICATE: 256 − 192 that are returned;
+    CHECKMULTISIG: 1024 per public key, i.e. 0 for none; expansion opcodes: 1) -/
+def baseCost (op : Nat) : Int :=
+  if op ≤ 0x6a then 1
+  else if op ≤ 0x6e then 2
+  else if op = 0x6f then 3
+  else if op ≤ 0x72 then 2
+  else if op ≤ 0x78 then 1
+  else if op ≤ 0x7b then 2
+  else if op ≤ 0x7d then 1
+  else if op ≤ 0x81 then 4
+  else if op ≤ 0x88 then 1
+  else if op = 0x89 then 4
+  else if op = 0x8a then 1
+  else if op ≤ 0x8e then 2
+  else if op ≤ 0x90 then 1
+  else if op ≤ 0x94 then 2
+  else if op ≤ 0x99 then 8
+  else if op ≤ 0xa4 then 2
+  else if op = 0xa5 then 4
+  else if op = 0xa8 ∨ op = 0xaa ∨ op = 0xab then 64
+  else if op = 0xac then 1024
+  else if op = 0xad then 0
+  else if op = 0xae then 256
+  else if op = 0xc0 then 64
+  else if op = 0xc1 then 16
+  else 1
 
 /-- opcodes with a handler in `ops` (ops.go); every other byte is an expansion NOP -/
 def isDefinedOp (op : Nat) : Bool :=
@@ -204,7 +236,7 @@ inductive Action (ι : Type) where
 /-- `step()` of one virtualMachine, up to the point where a child VM must run -/
 def frameStep : OpM (St μ ι) (Action ι) := do
   let s ← OpM.get
-  let inst ← ofExcept (parseOp (M.read s.mem s.f.prog) s.f.pc)
+  let inst ← ofExcept (parseOpL (M.len s.f.prog) (M.read s.mem s.f.prog) s.f.pc)
   modifyF fun f => { f with nextPC := f.pc + inst.len }
   if isExpansion inst.op then
     if s.f.expRes then throwE .disallowedOpcode
